@@ -567,7 +567,7 @@ def fileRunFull (code : Str → Path) (tmpdir filename : Str) (mode : Nat) (piec
   | (e, acts) => (e.err, acts)
 
 /-- an injective naming of paths (any injective `code` will do for the theorems; this is the one the driver runs) -/
-def codeStr : Str → Path
+def codeStr : Str → Nat
   | [] => 0
   | c :: s => (c.toNat + 1) + 1114113 * codeStr s
 
